@@ -6,7 +6,7 @@
 From Coq Require Import List ZArith Bool Arith Permutation Sorted.
 From YV Require Import Common.Corr Model.Queries Model.Streams
   Lemmas.QueriesLaws Lemmas.QueriesOrder Lemmas.QueriesGroup Lemmas.QueriesInsert
-  Lemmas.QueriesDictSet Lemmas.StreamsSteps Lemmas.StreamsPipeline Lemmas.StreamsMore Lemmas.StreamsGeneric Lemmas.StreamsAll Lemmas.StreamsMore2 Lemmas.QueriesStrings Lemmas.QueriesDictEq.
+  Lemmas.QueriesDictSet Lemmas.StreamsSteps Lemmas.StreamsPipeline Lemmas.StreamsMore Lemmas.StreamsGeneric Lemmas.StreamsAll Lemmas.StreamsMore2 Lemmas.QueriesStrings Lemmas.QueriesDictEq Lemmas.StreamsKinds.
 Import ListNotations.
 
 (* orderBy / thenBy with any ascending/descending flags: the output is a
@@ -70,6 +70,21 @@ Example C13_example_dict_order :
   val_eqb d1 d2 = true /\ distinct_l val_eqb (fun x => x) [d1; d2] = [d1] /\ length (set_of_list [d1; d2]) = 1%nat /\
   length (group_by_l val_eqb (fun x => x) (fun x => x) [d1; d2; d1]) = 1%nat.
 Proof. vm_compute. repeat split. Qed.
+
+(* ---- container kinds -------------------------------------------------------------------------------------- *)
+(* every function of the two modules that BUILDS a container (insert on a list, splitAt, toList, toSet, toDict,
+   dict(..), dict.set / delete / deleteAll / + / mergeWith, keys/values/items().toList(), list +, list(..), the set
+   algebra, unpack) hands on a yaql list (tuple), a FrozenDict, a frozenset or a lazy sequence - never a Python list
+   or dict (the raw-kind census of the correspondence ties this to the code under yaql.convertOutputData = false) *)
+Theorem C13_collection_kinds : forall fuel s sg r s' r',
+  builds sg = true -> apply_stage fuel s sg r = (s', Ok r') -> top_frozen r' = true.
+Proof. exact builders_frozen. Qed.
+
+(* ... and frozen at every depth when built from frozen material, e.g. *)
+Theorem C13_collection_kinds_deep : forall l pos v n, forallb frozen l = true -> frozen v = true ->
+  frozen (VList false (list_insert_l l pos v)) = true /\
+  frozen (VList false [VList false (fst (split_at_l l n)); VList false (snd (split_at_l l n))]) = true.
+Proof. exact (fun l pos v n Hl Hv => conj (list_insert_frozen l pos v Hl Hv) (split_at_frozen l n Hl)). Qed.
 
 (* ---- the algebraic laws ------------------------------------------------------ *)
 Theorem C13_where_where : forall (p q : val -> bool) l,
@@ -267,7 +282,7 @@ Proof. exact (fun l2 l p f => conj (zip_list_one l2 l) eq_refl). Qed.
 (* the eager consumers: splitAt gives the two Python slices, groupBy the grouping of C13_group_by (TypeError on an unhashable key) *)
 Theorem C13_consumers : forall i l, Denotes i l ->
   (forall n s, exists fuel s', apply_stage fuel s (SSplitAt n) (RIter i) =
-     (s', Ok (RVal (VList true [VList false (fst (split_at_l l n)); VList false (snd (split_at_l l n))])))) /\
+     (s', Ok (RVal (VList false [VList false (fst (split_at_l l n)); VList false (snd (split_at_l l n))])))) /\
   (forall k v s, exists fuel s', apply_stage fuel s (SGroupBy k v) (RIter i) =
      (s', if forallb (fun x => hashable (apply k x)) l
           then Ok (RIter (OfList (map (fun g => pair_val (fst g) (VList true (snd g)))
